@@ -11,7 +11,9 @@ import (
 
 type Limiter struct {
 	c            chan struct{}
-	w            sync.WaitGroup
+	mu           sync.Mutex
+	running      int           // functions started and not yet finished
+	idle         chan struct{} // closed when running drops to zero, nil while nothing is running
 	panicHandler func(any)
 }
 
@@ -38,30 +40,45 @@ func (l *Limiter) Go(fn func()) *Limiter {
 }
 
 func (l *Limiter) Wait(waitTime ...time.Duration) {
-	if len(waitTime) > 0 {
-		quit := make(chan struct{}, 1)
-		go func(ch chan<- struct{}) {
-			l.w.Wait()
-			ch <- struct{}{}
-		}(quit)
+	l.mu.Lock()
+	idle := l.idle
+	l.mu.Unlock()
 
+	if idle == nil {
+		return
+	}
+
+	if len(waitTime) > 0 {
 		select {
-		case <-quit:
+		case <-idle:
 		case <-time.After(waitTime[0]):
 		}
 		return
 	}
 
-	l.w.Wait()
+	<-idle
 }
 
 func (l *Limiter) add() {
 	l.c <- struct{}{}
-	l.w.Add(1)
+
+	l.mu.Lock()
+	if l.running == 0 {
+		l.idle = make(chan struct{})
+	}
+	l.running++
+	l.mu.Unlock()
 }
 
 func (l *Limiter) done() {
-	l.w.Done()
+	l.mu.Lock()
+	l.running--
+	if l.running == 0 {
+		close(l.idle)
+		l.idle = nil
+	}
+	l.mu.Unlock()
+
 	<-l.c
 }
 
